@@ -511,6 +511,10 @@ func (u *c18NilUser) ToLiquid() any {
 	return u.name
 }
 
+type c18Tag struct{ name string }
+
+func (t c18Tag) ToLiquid() any { return t.name }
+
 type c18Tags []string
 
 func (t c18Tags) ToLiquid() any { return map[string]any{"count": len(t), "list": []string(t)} }
@@ -532,6 +536,9 @@ func c18ExplicitFamily() explore.Family {
 	}
 	containerTpls := []string{"{{ a | size }}|{{ a | compact | size }}|{{ a | join: ',' }}|{{ a | first | size }}|{% if a.first %}T{% else %}F{% endif %}|{% if a.first == nil %}N{% else %}V{% endif %}",
 		"{% for x in a %}[{{ x | size }}:{{ x | join: '+' }}]{% endfor %}|{{ a | reverse | first | join }}|{{ a | uniq | size }}|{{ a.last | first }}|{{ a[0] | default: 'dflt' }}", "{{ a }}|{{ a | last }}|{{ a | map: 'k' | size }}|{{ a | concat: a | compact | size }}"}
+	listTpls := []string{"{% if a contains 'a' %}C{% else %}N{% endif %}|{% if a contains 'z' %}C{% else %}N{% endif %}|{{ a | join: ',' }}|{{ a | first }}|{{ a.last }}|{{ a[1] }}|{{ a | size }}",
+		"{{ a | sort | join }}|{{ a | reverse | join }}|{{ a | uniq | size }}|{% for x in a %}[{{ x }}]{% endfor %}|{% if a[0] == 'a' %}E{% endif %}|{{ a | map: 'nothing' | size }}|{{ a | concat: a | uniq | join }}",
+		"{% case 'b' %}{% when a[1] %}W{% endcase %}|{{ a | sort_natural | join }}|{{ a | compact | size }}|{% if a == a %}S{% endif %}|{{ a }}"}
 	dropTpls := []string{"{{ d }}|{% if d %}T{% else %}F{% endif %}|{{ d | default: 'dflt' }}|{% if d == nil %}N{% else %}V{% endif %}", "{{ h.d }}|{{ l[0] }}|{{ l | join: ',' }}|{{ l | compact | size }}|{% for x in l %}[{{ x }}]{% endfor %}",
 		"{{ d.count }}|{{ d.list | size }}|{{ d | first }}|{{ d | size }}|{% case d %}{% when 'guest' %}G{% else %}E{% endcase %}"}
 	classes := []class{
@@ -541,6 +548,10 @@ func c18ExplicitFamily() explore.Family {
 		{"list of an empty and a non-empty map", []func() any{
 			func() any { return []any{map[string]any{}, map[string]any{"k": 1}} }, func() any { return []map[string]any{nil, {"k": 1}} },
 			func() any { return []map[string]int{{}, {"k": 1}} }, func() any { return []any{map[string]int(nil), map[string]any{"k": 1}} }}, containerTpls},
+		{"a list of two strings held as Drops", []func() any{
+			func() any { return []any{"a", "b"} }, func() any { return []string{"a", "b"} }, func() any { return []any{c18Tag{"a"}, c18Tag{"b"}} },
+			func() any { return []c18Tag{{"a"}, {"b"}} }, func() any { return [2]c18Tag{{"a"}, {"b"}} }, func() any { return []*c18Tag{{"a"}, {"b"}} },
+			func() any { return []univ.Drop{{V: "a"}, {V: "b"}} }}, listTpls},
 		{"a Drop yielding 'guest'", []func() any{
 			func() any { return "guest" }, func() any { return (*c18NilUser)(nil) }, func() any { return &c18NilUser{"guest"} }, func() any { return univ.Drop{V: "guest"} }}, dropTpls},
 		{"a Drop yielding {count:0,list:[]}", []func() any{
